@@ -33,7 +33,7 @@ func C04(c *core.Ctx) {
 	ms = append(ms, addPropsMembers(c.Tier, cfg)...)
 	ms = append(ms, allOfMembers(cfg)...)
 	for _, mb := range ms {
-		runMember(c, mb, rules, 64, func(w *fam.World, fm *fam.FileModel) []fam.Issue {
+		runMember(c, mb, rules, 256, func(w *fam.World, fm *fam.FileModel) []fam.Issue {
 			var keep []fam.Issue
 			for _, is := range checkRoot(w, fm) {
 				if is.Rule == "A-NOEXTRA" && !strings.Contains(is.Construct, "presence") {
